@@ -23,14 +23,16 @@ use scpi::parser::format::{Arbitrary, Binary, Character, Expression, Hex, Octal}
 use scpi::parser::response::{Formatter, ResponseData};
 use scpi::tree::prelude::*;
 use std::alloc::{GlobalAlloc, Layout, System};
-use std::sync::atomic::{AtomicUsize, Ordering};
 
 pub struct Counting;
-pub static ALLOCS: AtomicUsize = AtomicUsize::new(0);
+// per-thread counter: the case runs on its own thread, the main thread (watchdog, output) must not be counted
+thread_local! { static ALLOCS: std::cell::Cell<usize> = const { std::cell::Cell::new(0) }; }
+fn bump() { let _ = ALLOCS.try_with(|c| c.set(c.get() + 1)); }
+fn allocs() -> usize { ALLOCS.try_with(|c| c.get()).unwrap_or(0) }
 unsafe impl GlobalAlloc for Counting {
-    unsafe fn alloc(&self, l: Layout) -> *mut u8 { ALLOCS.fetch_add(1, Ordering::Relaxed); System.alloc(l) }
+    unsafe fn alloc(&self, l: Layout) -> *mut u8 { bump(); System.alloc(l) }
     unsafe fn dealloc(&self, p: *mut u8, l: Layout) { System.dealloc(p, l) }
-    unsafe fn realloc(&self, p: *mut u8, l: Layout, n: usize) -> *mut u8 { ALLOCS.fetch_add(1, Ordering::Relaxed); System.realloc(p, l, n) }
+    unsafe fn realloc(&self, p: *mut u8, l: Layout, n: usize) -> *mut u8 { bump(); System.realloc(p, l, n) }
 }
 
 #[derive(Clone, Copy)]
@@ -130,7 +132,21 @@ fn typed(ty: &str, tok: Token) -> Result<()> {
         "f32" => conv!(f32), "f64" => conv!(f64), "bool" => conv!(bool), "bytes" => conv!(&[u8]), "str" => conv!(&str),
         "arb" => conv!(Arbitrary), "chr" => conv!(Character), "expr" => conv!(Expression),
         "nlist" => { let l = NumericList::try_from(tok)?; for e in l { e?; } Ok(()) }
-        "clist" => { let l = ChannelList::try_from(tok)?; for e in l { e?; } Ok(()) }
+        "clist" => {
+            let l = ChannelList::try_from(tok)?;
+            for e in l {
+                use scpi::parser::expression::channel_list::Token as CT;
+                let specs = match e? { CT::ChannelSpec(a) => vec![a], CT::ChannelRange(a, b) => vec![a, b], _ => vec![] };
+                for sp in specs {
+                    // every dimension up to the first error (the iterator does not advance past an error)
+                    for d in sp { if d.is_err() { break; } }
+                    let _ = <isize>::try_from(sp); let _ = <usize>::try_from(sp);
+                    let _ = <(isize, isize)>::try_from(sp); let _ = <(usize, usize)>::try_from(sp);
+                    let _ = <(isize, isize, isize)>::try_from(sp); let _ = <(usize, usize, usize)>::try_from(sp);
+                }
+            }
+            Ok(())
+        }
         _ => panic!("bad type {}", ty),
     }
 }
@@ -215,9 +231,9 @@ fn parse_children(s: &[u8], pos: &mut usize, scripts: &std::collections::HashMap
 fn run_one<F: Formatter>(root: &TNode, msg: &[u8], d: &mut TDev, f: &mut F, check_alloc: bool) -> String {
     d.log.clear(); d.arena.clear(); d.hook.clear();
     let mut ctx = Context::new();
-    let before = ALLOCS.load(Ordering::Relaxed);
+    let before = allocs();
     let r = root.run(msg, d, &mut ctx, f);
-    let allocs = ALLOCS.load(Ordering::Relaxed) - before;
+    let allocs = allocs() - before;
     let hook: Vec<String> = d.hook.iter().map(show_error).collect();
     format!("{} out={} hook={} alloc={} log={}",
             match r { Ok(()) => "OK".to_string(), Err(e) => show_error(&e) }, hex(f.as_slice()),
